@@ -92,16 +92,43 @@ int main(int argc, char** argv) {
   tbb::global_control gc(tbb::global_control::max_allowed_parallelism, argc > 1 ? std::atoi(argv[1]) : 2);
 #endif
   (void)argc; (void)argv;
-  ST* st = new ST(); int universe = 5;
+  // three objects (C15); every operation of the single-tree protocol acts on the selected one
+  ST* slots[3] = {new ST(), new ST(), new ST()}; int cur = 0; int universe = 5;
   // operations documented as "call clear_filtration() afterwards" set dirty; the ones that drop the cache themselves do not
-  bool dirty = false;
-  return vh::run([&] { delete st; st = new ST(); scale = 1; dirty = false; },
+  bool dirtyv[3] = {false, false, false};
+#define st slots[cur]
+#define dirty dirtyv[cur]
+  auto fresh = [&](int k) { delete slots[k]; slots[k] = new ST(); dirtyv[k] = false; };
+  auto hex = [](const char* b, std::size_t n) { static const char* d = "0123456789abcdef"; std::string o; for (std::size_t i = 0; i < n; ++i) { unsigned char c = (unsigned char)b[i]; o += d[c >> 4]; o += d[c & 15]; } return o; };
+  return vh::run([&] { for (int k = 0; k < 3; ++k) fresh(k); cur = 0; scale = 1; },
     [&](const Toks& t) {
       const std::string& o = t[0];
       std::cout << vh::guarded([&]() -> std::string {
         std::ostringstream r;
         if (o == "ins" || o == "insf" || o == "batch" || o == "rmmax" || o == "assign") dirty = true;
         if (o == "univ") { universe = (int)L(t[1]); return "univ"; }
+        if (o == "sel") { cur = (int)L(t[1]); return "sel"; }
+        if (o == "widths") { if ((long)sizeof(VH) != L(t[1]) || (OPT::store_filtration ? (long)sizeof(typename ST::Filtration_value) : 0) != L(t[2])) return "widths-mismatch"; return "widths"; }
+        if (o == "copy") { int a = (int)L(t[1]), c = (int)L(t[2]); ST* n = new ST(*slots[a]); delete slots[c]; slots[c] = n; dirtyv[c] = dirtyv[a]; return "copy"; }
+        if (o == "cassign") { int a = (int)L(t[1]), c = (int)L(t[2]); *slots[c] = *slots[a]; dirtyv[c] = dirtyv[a]; return "cassign"; }
+        if (o == "mctor") { int a = (int)L(t[1]), c = (int)L(t[2]); ST* n = new ST(std::move(*slots[a])); delete slots[c]; slots[c] = n; dirtyv[c] = dirtyv[a]; dirtyv[a] = false;
+          r << "mctor src-empty=" << (slots[a]->num_simplices() == 0 && slots[a]->num_vertices() == 0 && slots[a]->dimension() == -1 ? 1 : 0); return r.str(); }
+        if (o == "massign") { int a = (int)L(t[1]), c = (int)L(t[2]); *slots[c] = std::move(*slots[a]); dirtyv[c] = dirtyv[a]; dirtyv[a] = false;
+          r << "massign src-empty=" << (slots[a]->num_simplices() == 0 && slots[a]->num_vertices() == 0 && slots[a]->dimension() == -1 ? 1 : 0); return r.str(); }
+        if (o == "swap") { int a = (int)L(t[1]), c = (int)L(t[2]); std::swap(*slots[a], *slots[c]); std::swap(dirtyv[a], dirtyv[c]); return "swap"; }
+        if (o == "destroy") { fresh((int)L(t[1])); return "destroy"; }
+        if (o == "eq") { r << "eq " << ((*slots[L(t[1])] == *slots[L(t[2])]) ? 1 : 0); return r.str(); }
+        if (o == "ser") { std::size_t n = st->get_serialization_size(); char* buf = new char[n]; std::string res;
+          try { st->serialize(buf, n); res = hex(buf, n); } catch (...) { delete[] buf; throw; } delete[] buf; r << "ser " << n << " " << res; return r.str(); }
+        if (o == "deser") { int c = (int)L(t[1]); bool longer = L(t[2]) == 1; std::size_t k = (std::size_t)L(t[3]);
+          std::size_t n = st->get_serialization_size(); char* buf = new char[n]; st->serialize(buf, n);
+          std::size_t m = longer ? n + k : (k > n ? 0 : n - k); char* b2 = new char[m ? m : 1]; if (m) std::memset(b2, 0, m); std::memcpy(b2, buf, std::min(n, m)); delete[] buf;
+          // a heap buffer of exactly m bytes, so that a read past the end is an ASan/valgrind error, not a silent success
+          char* b3 = (char*)std::malloc(m); if (m) std::memcpy(b3, b2, m); delete[] b2;
+          fresh(c); std::string res;
+          try { slots[c]->deserialize(b3, m); res = "deser ok"; } catch (const std::invalid_argument&) { res = "deser invalid_argument"; fresh(c); } catch (...) { std::free(b3); fresh(c); throw; }
+          std::free(b3); return res; }
+        if (o == "text") { int c = (int)L(t[1]); if (dirty) { st->clear_filtration(); dirty = false; } std::stringstream ss; ss << *st; fresh(c); ss >> *slots[c]; return "text"; }
         if (o == "ins") { S s = words(t, 2); auto sh0 = st->find(tovh(s)); bool isnew = (sh0 == st->null_simplex()); auto res = st->insert_simplex(tovh(s), (typename ST::Filtration_value)L(t[1]));
           r << "ins new=" << (res.second ? 1 : 0) << " h=" << (res.first != st->null_simplex() ? 1 : 0); if (isnew != res.second) r << " flag-mismatch"; return r.str(); }
         if (o == "insf") { S s = words(t, 2); bool isnew = (st->find(tovh(s)) == st->null_simplex()); auto res = st->insert_simplex_and_subfaces(tovh(s), (typename ST::Filtration_value)L(t[1]));
